@@ -45,7 +45,7 @@ ASSUMPTIONS = [
     "first-occurrence order of combine is row-major (C) cell order",
     "popularity: value not asserted (the statement does not define it); only shape, NaN-absorption and locality",
 ]
-BUDGET_S = {"quick": 150, "thorough": 1100}
+BUDGET_S = {"quick": 150, "thorough": 1500}
 
 EPS = 2.0 ** -52
 STATS = ["sum", "mean", "median", "min", "max", "std"]
@@ -671,11 +671,11 @@ def ops_cases(draw, max_side, layout_modes=None):
 def shards(tier):
     out = []
     thorough = tier == "thorough"
-    nrand, per, side = (16, 7000, 12) if thorough else (12, 900, 8)
+    nrand, per, side = (16, 6000, 12) if thorough else (12, 900, 8)
     for i in range(nrand):
         out.append(("rand#%d" % i, lambda ctx, i=i: drive_hypothesis(ctx, body_ops, ops_cases(side), per)))
     # non-C layouts only: the class the Fortran-order repair (9652984) is about
-    nlay, perl = (8, 5000) if thorough else (4, 600)
+    nlay, perl = (8, 4000) if thorough else (4, 600)
     for i in range(nlay):
         out.append(("layout#%d" % i, lambda ctx, i=i: drive_hypothesis(
             ctx, body_ops, ops_cases(side, ["allF", "allF", "mixed", "mixed", "view", "neg", "last", "any"]), perl)))
